@@ -14,7 +14,7 @@ pub fn run_scenario(seed: u64, i: usize, tier: Tier) -> Outcome {
     let mut r = Prng::new(seed ^ (i as u64).wrapping_mul(0x9E37_79B9_7F4A_7C15) ^ 0xC06);
     let protocol = *r.pick(&[Protocol::Icmp, Protocol::Udp, Protocol::Tcp]);
     let v6 = r.chance(1, 3);
-    let cell = Cell {
+    let mut cell = Cell {
         protocol,
         v6,
         strategy: MultipathStrategy::Classic,
@@ -26,6 +26,12 @@ pub fn run_scenario(seed: u64, i: usize, tier: Tier) -> Outcome {
         unprivileged: false,
         ext: false,
     };
+    // one scenario in four: any other cell (Paris / Dublin, every port direction, unprivileged)
+    if r.chance(1, 4) {
+        let all: Vec<Cell> = scen::all_cells(false).into_iter().filter(|c| !c.ext).collect();
+        cell = *r.pick(&all);
+    }
+    let (protocol, v6) = (cell.protocol, cell.v6);
     let mut tcfg = cell.trace_cfg();
     let read_ms = *r.pick(&[1u64, 10]);
     let round_ms = *r.pick(&[100u64, 300]);
@@ -95,7 +101,7 @@ pub fn run_scenario(seed: u64, i: usize, tier: Tier) -> Outcome {
         wcfg.long_branch_extra = r.range(1, 3) as u8;
     }
     // transient send failures (where the platform layer maps them to a failed probe)
-    if crate::e2e::is_probe_failed_errno(protocol, v6, true, crate::world::Op::SendTo, libc::EHOSTUNREACH) && r.chance(1, 5) {
+    if crate::e2e::is_probe_failed_errno(protocol, v6, !cell.unprivileged, crate::world::Op::SendTo, libc::EHOSTUNREACH) && r.chance(1, 5) {
         for _ in 0..r.range(1, 12) {
             wcfg.faults.at_op.insert((crate::world::Op::SendTo, r.below(150) as usize), crate::world::Fault { errno: libc::EHOSTUNREACH });
         }
